@@ -306,6 +306,20 @@ class Repo:
             if name in k.methods:
                 res = Func(k.mod, k, k.methods[name])
                 break
+            if name in k.class_assigns:
+                # `visitA = visitB = _helper` in a class body: the name is another spelling of a function
+                v: ast.expr | None = k.class_assigns[name]
+                seen = {name}
+                while isinstance(v, ast.Name) and v.id in k.class_assigns and v.id not in k.methods and v.id not in seen:
+                    seen.add(v.id)
+                    v = k.class_assigns[v.id]
+                if isinstance(v, ast.Name) and v.id in k.methods:
+                    res = Func(k.mod, k, k.methods[v.id])
+                elif isinstance(v, ast.Name) and v.id in k.mod.funcs:
+                    res = Func(k.mod, None, k.mod.funcs[v.id])
+                elif isinstance(v, ast.Lambda):
+                    raise AnalysisError(f"{k.qual}.{name} is a lambda stored in the class body; method aliases of this kind are not modelled")
+                break  # a class attribute of this name hides the methods of the base classes
         cache[key] = res
         return res
 
